@@ -90,6 +90,18 @@ def gen_crate(rng, base="c", root_name=None, max_files=5, depth=3, feats=(), bod
             t.decls.append((decl_file, name, target))
             gen_file(target, os.path.dirname(target), d + 1)
             return '#[path = "%s"]\nmod %s;\n' % (pth, name)
+        if "cfg_attr_path" in feats and k < 42:
+            # both the default file and the cfg_attr(path) alternate are reachable (under some cfg)
+            t.features.add("cfg_attr_path")
+            alt = os.path.normpath(os.path.join(declfile_dir, "alt_%s.rs" % name))
+            t.decls.append((decl_file, name, alt))
+            gen_file(alt, os.path.dirname(alt), d + 1)
+            txt = '#[cfg_attr(feature = "x", path = "alt_%s.rs")]\nmod %s;\n' % (name, name)
+            if rng.chance(60):
+                target, cdir = place(childdir, name)
+                t.decls.append((decl_file, name, target))
+                gen_file(target, cdir, d + 1)
+            return txt
         if "cfg_if" in feats and k < 45:
             t.features.add("cfg_if")
             target, cdir = place(childdir, name)
